@@ -43,6 +43,8 @@ var M = &run.Monitor{
 		need("algebra_vectors_compared", 200000)
 		need("coder_vectors_compared", 1000)
 		need("snapshots_compared", 5000)
+		need("scope_same_layout_calls", 1000)
+		need("scope_bytes_vs_marshal", 300)
 		need("spelling_groups", 1000)
 		need("spelling_results_nil_error", 300)
 		need("spelling_results_error", 30)
